@@ -87,6 +87,23 @@ def _twin(prop: str, repo: str, base: set[str]) -> dict:
         shutil.rmtree(tmp, ignore_errors=True)
 
 
+def _refactor(prop: str, repo: str, name: str, patch: str, base: set[str]) -> dict:
+    """A behaviour-preserving refactoring set must not change the verdict."""
+    tmp = tempfile.mkdtemp(prefix=f"st_{prop}_{name}_")
+    try:
+        os.makedirs(os.path.join(tmp, "src"))
+        shutil.copytree(os.path.join(repo, "src", "jinja2"), os.path.join(tmp, "src", "jinja2"))
+        r = subprocess.run(["patch", "-p1", "-s", "--fuzz=3", "--no-backup-if-mismatch", "-i", patch], cwd=tmp, capture_output=True, text=True)
+        if r.returncode != 0:
+            return {"name": name, "status": "skipped"}
+        rc, keys = _run(prop, tmp, "quick")
+        if keys == base and rc in (0, 1):
+            return {"name": name, "status": "silent"}
+        return {"name": name, "status": "ALARM", "extra": sorted(keys - base)[:3], "rc": rc}
+    finally:
+        shutil.rmtree(tmp, ignore_errors=True)
+
+
 def selftest(prop: str, repo: str, base: set[str]) -> dict:
     """``base``: finding keys of the main run (known findings included)."""
     try:
@@ -99,10 +116,14 @@ def selftest(prop: str, repo: str, base: set[str]) -> dict:
     with cf.ThreadPoolExecutor(8) as ex:
         futs = [ex.submit(_variant, prop, repo, tag, os.path.join(VERIF, v["patch"]), bool(v.get("reverse")), base) for tag, v in todo]
         tw = ex.submit(_twin, prop, repo, base)
+        rfdir = os.path.join(VERIF, "selftest", "refactors")
+        rfs = [ex.submit(_refactor, prop, repo, f[:-5], os.path.join(rfdir, f), base) for f in sorted(os.listdir(rfdir)) if f.endswith(".diff")] if os.path.isdir(rfdir) else []
         out["must_fire"] = [f.result() for f in futs]
         out["twin"] = tw.result()
+        out["refactorings"] = [f.result() for f in rfs]
     out["fired"] = sum(1 for r in out["must_fire"] if r["status"] == "fired")
     out["skipped"] = sum(1 for r in out["must_fire"] if r["status"] == "skipped")
     out["missed"] = [r["tag"] for r in out["must_fire"] if r["status"] == "MISSED"]
-    out["ok"] = not out["missed"] and out["twin"]["status"] == "silent"
+    out["alarms"] = [r["name"] for r in out["refactorings"] if r["status"] == "ALARM"]
+    out["ok"] = not out["missed"] and out["twin"]["status"] == "silent" and not out["alarms"]
     return out
